@@ -319,6 +319,115 @@ def k_simulator(ctx):
     ctx.coverage["simulator_correspondence"] = stats
 
 
+# ---- K 1b: Assignment.evaluate with condition and default (programs given in the parsed form) ----
+def enc(t):
+    if isinstance(t, Fraction):
+        return ["q", f"{t.numerator}/{t.denominator}"]
+    if isinstance(t, (tuple, list)):
+        return [enc(x) for x in t]
+    return t
+
+
+def pstmt_coq(st):
+    if st[0] == "gassign":
+        _, x, c, d, r = st
+        return (f'(PAssign {{| ga_var := "{x}"; ga_cond := {progast.c_coq(c)}; ga_default := "{d}"; '
+                f'ga_rhs := {progast.r_coq(r)} |}})')
+    brs = "PBrNil"
+    for c, b in reversed(st[1]):
+        brs = f"(PBrCons {progast.c_coq(c)} {pblock_coq(b)} {brs})"
+    return f"(PIf {brs} {pblock_coq(st[2]) if st[2] is not None else 'PNil'})"
+
+
+def pblock_coq(b):
+    t = "PNil"
+    for st in reversed(b):
+        t = f"(PCons {pstmt_coq(st)} {t})"
+    return t
+
+
+def pprog_text(p):
+    def blk(b, ind):
+        out = []
+        for st in b:
+            pad = "    " * ind
+            if st[0] == "gassign":
+                out.append(f"{pad}{st[1]} = {progast.r_text(st[4], implicit_last=False)}  |  {progast.c_text(st[2])}  :  {st[3]}")
+            else:
+                for i, (c, bb) in enumerate(st[1]):
+                    out.append(f"{pad}{'if' if i == 0 else 'elif'} {progast.c_text(c)}:")
+                    out += blk(bb, ind + 1)
+                if st[2] is not None:
+                    out.append(f"{pad}else:")
+                    out += blk(st[2], ind + 1)
+                out.append(f"{pad}end")
+        return out
+    return "\n".join(blk(p["init"], 0) + [f"while {progast.c_text(p['guard'])}:"] + blk(p["body"], 1) + ["end"]) + "\n"
+
+
+def k_guarded(ctx):
+    n = ctx.pick(40, 160)
+    N = 3
+    gens = simgen.guarded(ctx.rng, n)
+    cases = []
+    for g in gens:
+        cases.append({"prog": g["prog"], "vars": g["vars"], "N": N, "src": "(parsed form: assignment | condition : default)\n" + pprog_text(g["prog"])})
+    tasks = [{"kind": "sim_enum_parsed", "prog": {k: enc(v) for k, v in c["prog"].items()}, "N": c["N"], "vars": c["vars"],
+              "cap": 2000, "timeout": 120} for c in cases]
+    res = lib.run_tasks(tasks, timeout=120)
+    stats = {"programs": len(cases), "paths": 0, "frozen_steps": 0, "paths_with_frozen_suffix": 0, "dropped_overflow": 0,
+             "programs_agreeing": 0}
+    done = []
+    for c, r in zip(cases, res):
+        if r.get("overflow"):
+            stats["dropped_overflow"] += 1
+            continue
+        if "error" in r:
+            if r["error"] == "exception":
+                ctx.violation("sim-exception:" + sig_of(c["src"]), {"program": c["src"], "exception": r.get("etype"), "message": r.get("msg"),
+                                                                    "where": r.get("where")},
+                              f"the simulator raised {r.get('etype')}: {str(r.get('msg'))[:200]} on\n{c['src']}")
+            continue
+        c["paths"] = r["paths"]
+        c["parsed"] = r["parsed"]
+        done.append(c)
+    files = [done[i:i + 8] for i in range(0, len(done), 8)]
+    texts = []
+    for j, f in enumerate(files):
+        name = f"c12_par_{j}"
+        body = HEADER
+        for i, c in enumerate(f):
+            p = c["prog"]
+            scripts = progast.lst([progast.lst([str(x) for x in pp["script"]]) for pp in c["paths"]])
+            body += (f"Definition p{i} : pprog := {{| pp_init := {pblock_coq(p['init'])}; pp_guard := {progast.c_coq(p['guard'])}; "
+                     f"pp_body := {pblock_coq(p['body'])} |}}.\n")
+            vars_ = progast.lst([f'"{v}"' for v in c["vars"]])
+            body += f"Definition v{i} : list var := {vars_}.\n"
+            body += f"Redirect \"{name}_r{3 * i}\" Eval vm_compute in k_pscripts p{i} {c['N']} v{i} ({scripts}%nat : list (list nat)).\n"
+            body += f"Redirect \"{name}_r{3 * i + 1}\" Eval vm_compute in k_psem p{i} {c['N']} v{i}.\n"
+            body += f"Redirect \"{name}_r{3 * i + 2}\" Eval vm_compute in k_penum p{i} {c['N']}.\n"
+        texts.append((name, body))
+    outs = lib.coq_run_many(ctx, texts, timeout=600)
+    for j, f in enumerate(files):
+        name = f"c12_par_{j}"
+        ok, o = outs[name]
+        red = read_redirected(ctx, name, 3 * len(f)) if ok else None
+        rs = parse_nested(red) if red is not None else []
+        if len(rs) != 3 * len(f):
+            ctx.violation("sim-casefile", {"file": name, "programs": [c["src"] for c in f], "log": o[-1500:]},
+                          "a generated case file did not evaluate in Coq", no_input=True)
+            continue
+        for k, c in enumerate(f):
+            ctx.coverage["obligations"] += 1
+            stats["paths"] += len(c["paths"])
+            ctx.count({"src": c["src"], "N": c["N"]}, nontrivial=len(c["paths"]) >= 2)
+            ctx.coverage["evaluations"] += len(c["paths"]) - 1
+            if compare_program(ctx, c, rs[3 * k], rs[3 * k + 1], rs[3 * k + 2], stats):
+                stats["programs_agreeing"] += 1
+                ctx.coverage["discharged"] += 1
+    ctx.coverage["guarded_assignment_correspondence"] = stats
+
+
 # ---- K 2: samplers ---------------------------------------------------------------------------
 def sampler_cases(ctx):
     r = ctx.rng
@@ -688,7 +797,8 @@ def run(ctx):
     ]
     before = len(ctx.violations) + len(ctx.known_hits)
     phases = {"translate+coq_build": round(ctx.elapsed(), 1)}
-    for name, fn in (("simulator", lambda: k_simulator(ctx)), ("samplers", lambda: k_samplers(ctx, desc)),
+    for name, fn in (("simulator", lambda: k_simulator(ctx)), ("guarded", lambda: k_guarded(ctx)),
+                     ("samplers", lambda: k_samplers(ctx, desc)),
                      ("analysis", lambda: k_analysis(ctx))):
         t0 = ctx.elapsed()
         fn()
